@@ -53,6 +53,15 @@ fn classes(s: &Stats, t: &Trace) -> Vec<&'static str> {
     if s.replays > 0 {
         c.push("replayed-request");
     }
+    if t.mps_shrinks.0 > 0 {
+        c.push("smaller-maximum-packet-size-on-resumed-connection");
+        if s.rel_replays > 0 {
+            c.push("pubrel-replayed-under-smaller-maximum-packet-size");
+        }
+    }
+    if t.mps_shrinks.1 > 0 {
+        c.push("smaller-maximum-packet-size-withheld");
+    }
     if s.replay_deferred_by_window > 0 {
         c.push("replay-paced-by-smaller-receive-maximum");
     }
@@ -243,6 +252,7 @@ pub const C03: ScenDef = ScenDef {
         fail_reason_pct: 12,
         rm: vec![None, None, Some(4), Some(8), Some(65535)],
         payload_max: 12,
+        shrink_mps_pct: 40,
         ..Profile::default()
     },
     nontrivial: |s, _| (s.qos2_overlap_ooo > 0 && s.acks_out_of_order > 0) || s.rel_replays > 0 || (s.qos2_flights > 0 && s.replays > 0),
